@@ -72,6 +72,8 @@ class DeferredDomain(effects.EffectDomain):
 
     # -- first-class callables ----------------------------------------------------------------
     def load_attr(self, chain, st, fr):
+        if chain and chain[0] == "<yield>" and any((dotted(x) or "").split(".")[-1] == "inlineCallbacks" for x in getattr(fr.func, "decorator_list", [])):
+            return self._yield(chain[2], st, fr)
         got = super().load_attr(chain, st, fr)
         if got is not None:
             return got
